@@ -369,7 +369,7 @@ def check(ctx, want="C12"):
     # the producer 1000 messages behind: its queue is full, what the workers encode from then on is dropped - and nothing else
     # happens to it or to its datagram (the consumer takes nothing before the end of the run)
     for proto in ([] if mirror_only else PROTOS):
-        j = make_job(ctx, proto, 2, ctx.seed * 1000 + 450, {"ipfix": 2600, "netflow9": 2600, "netflow5": 4500, "sflow": 1700}[proto])
+        j = make_job(ctx, proto, 2, ctx.seed * 1000 + 450, {"ipfix": 4400, "netflow9": 3400, "netflow5": 5200, "sflow": 2400}[proto])
         j["lazy"] = 10 ** 9
         j["poison"] = []
         j["mqfull"] = True
